@@ -829,6 +829,14 @@ impl Simk {
 
     // ---------------------------------------------------------------- enter
 
+    /// The calling thread becomes the task that owns a SINGLE_ISSUER ring (the harness builds rings
+    /// on the explorer thread and hands them to the thread that plays the owner).
+    pub fn adopt_submitter(&mut self, ring: usize) {
+        if self.rings[ring].submitter.is_some() {
+            self.rings[ring].submitter = Some(thread_id());
+        }
+    }
+
     fn check_submitter(&mut self, ring: usize) -> Result<(), i32> {
         let r = &mut self.rings[ring];
         if r.flags & SETUP_SINGLE_ISSUER != 0 {
